@@ -232,10 +232,19 @@ func (e *visibilityEngine) Exec(op string) string {
 	if err != nil || root < 0 || root >= len(e.files) {
 		return "bad-op"
 	}
-	res := linker.ResolverFromFile(e.files[root])
 	fileOf := func(d protoreflect.Descriptor) string {
 		return strconv.Itoa(rsvPathIdx(d.ParentFile().Path()))
 	}
+	// a resolver is a read-only view that several goroutines may use at once (and compiled files
+	// are shared): every caller must get the lone caller's answer, so each query is made by three
+	// goroutines at the same time, each through a resolver of its own
+	return ConcFirst(3, func() string {
+		return visQuery(linker.ResolverFromFile(e.files[root]), w, fileOf)
+	})
+}
+
+func visQuery(res linker.Resolver, w []string, fileOf func(protoreflect.Descriptor) string) string {
+	var err error
 	switch w[0] {
 	case "name":
 		if len(w) != 3 {
